@@ -279,6 +279,8 @@ typedef struct {
 static reg_t regs[MAX_REGS];
 static int n_regs;
 static long next_reg = 1;
+static long straddling_protects;
+long c17_straddling_protects (void) { return straddling_protects; }
 
 static reg_t *reg_find (const void *addr) {
   int i;
@@ -340,6 +342,7 @@ static int c_protect (void *addr, size_t len, MIR_mem_protect_t prot, void *ud) 
   reg_diff (r);
   off = (size_t) ((uint8_t *) addr - r->base);
   ev ("{\"e\":\"Protect\",\"r\":%ld,\"off\":%zu,\"len\":%zu,\"prot\":\"%s\",\"bt\":%s}", r->id, off, len, ps, CALLER ());
+  if (prot == PROT_WRITE_EXEC && len > PAGE && len <= PAGE + 16) straddling_protects++; /* coverage only */
   if (off % PAGE != 0 || off + len > r->len || ps[0] == '?') return -1; /* as mprotect: EINVAL / ENOMEM */
   if (len == 0) return 0;
   return mprotect (addr, len, prot == PROT_WRITE_EXEC ? (PROT_READ | PROT_WRITE | PROT_EXEC) : (PROT_READ | PROT_EXEC));
@@ -528,6 +531,7 @@ void c17_reset (void) {
   }
   n_regs = 0;
   next_id = next_reg = 1;
+  straddling_protects = 0;
   live_bytes = quarantine_bytes = peak_live_blocks = live_blocks = 0;
 }
 
